@@ -152,10 +152,11 @@ def emit_tables(pack, knobs=None):
     rules = ["{-1,-1,0}"]
     for n, gi, r in pack.numbered_rules():
         t = r.trail_ast()
+        cont = 2 if r.action.strip() == "|" else 0
         if t is None:
-            rules.append("{-1,-1,0}")
+            rules.append("{-1,-1,%d}" % cont)
         else:
-            rules.append("{%d,%d,1}" % (add([(0, r.head)]), add([(0, t)])))
+            rules.append("{%d,%d,%d}" % (add([(0, r.head)]), add([(0, t)]), 1 | cont))
     rules.append("{-1,-1,0}")   # default rule
     decl = []
     for i, d in enumerate(dfas):
@@ -217,16 +218,19 @@ def emit_spec(pack, render_kw=None, tables_name="vf_tables.h", driver="vf_driver
     for name, excl in pack.conds[1:]:
         L.append("%s %s" % ("%x" if excl else "%s", name))
     L.append("%%")
+    pack.line2group = {}
     for gi, r in pack.rules:
+        pack.line2group[sum(x.count("\n") + 1 for x in L) + 1] = gi
         pre = ""
         if r.scs == '*':
             pre = "<*>"
         elif r.scs is not None:
             pre = "<" + ",".join(r.scs) + ">"
+        act = "{ vf_body(); }" if r.action.strip() == "{ }" else r.action
         if r.eof:
-            L.append("%s<<EOF>> %s" % (pre, r.action))
+            L.append("%s<<EOF>> %s" % (pre, act))
         else:
-            L.append("%s%s %s" % (pre, r.pattern_text(**render_kw), r.action))
+            L.append("%s%s %s" % (pre, r.pattern_text(**render_kw), act))
     L.append("%%")
     L.append('#include "%s"' % tables_name)
     L.append('#include "refscan.h"')
@@ -354,6 +358,14 @@ def run_groups_job(job):
             return out
         out.update(summary=res["summary"], rc=res["rc"], hard_error=res["hard_error"], stderr=res["stderr"][-2000:],
                    stats=res["stats"], flex_stderr=res["flex_stderr"][-2000:], wall=res["wall"])
+        # flex warnings mapped back to groups through the line numbers of their rules
+        warned = {}
+        import re as _re
+        for m in _re.finditer(r"^[^:\n]*:(\d+): warning, (.*)$", res["flex_stderr"], _re.M):
+            gi = pack.line2group.get(int(m.group(1)))
+            if gi is not None:
+                warned.setdefault(gi, []).append(m.group(2))
+        out["warned"] = warned
         if res["summary"] is None:
             out["spec"] = _read(os.path.join(wd, "s.l"))
             out["tables"] = _read(os.path.join(wd, "s_tables.h"))
@@ -463,7 +475,7 @@ def ops_action(ops, api="NR"):
         OP_SETLINE: ("{ int vf_v = vf_arg_line(); yylineno = vf_v; vf_did_setline(vf_v, yylineno); } break;" if api == "NR" else
                      "{ int vf_v = vf_arg_line(); yyset_lineno(vf_v, yyscanner); vf_did_setline(vf_v, yyget_lineno(yyscanner)); } break;"),
     }
-    L = ["{ int vf_i; for (vf_i = 0; vf_i < VF_OPS_PER_ACTION; vf_i++) { int vf_o = vf_op((long)yyleng); if (!vf_o) break;",
+    L = ["{ int vf_i; vf_body(); for (vf_i = 0; vf_i < VF_OPS_PER_ACTION; vf_i++) { int vf_o = vf_op((long)yyleng); if (!vf_o) break;",
          "  switch (vf_o) {"]
     for o in sorted(ops):
         L.append("  case %d: %s" % (o, cases[o]))
